@@ -21,8 +21,7 @@ pub fn c13_kmer_iter<const K: usize, const N: usize, const R: usize>() {
         bytes[i] = b;
         i += 1;
     }
-    let len = any_usize();
-    assume(len <= N);
+    let len = N; // concrete: the binding copies the string into a fresh allocation
     let mut py = build(&bytes[..len], K); // moved out of `build`
     let mut boxed = Box::new(py); // and moved again (heap), as pyo3 does when it allocates the object
     let mut core = CoreKmerGenerator::new(&bytes[..len], K);
